@@ -93,11 +93,16 @@ func CmdCheck(args []string) int {
 	prop := fs.String("prop", "", "property id")
 	repo := fs.String("repo", "/repo", "repository")
 	verif := fs.String("verif", "/verif", "verif directory")
+	outFlag := fs.String("out", "", "directory for work/, replay/ and evidence/ (default: the verif directory)")
 	thorough := fs.Bool("thorough", false, "thorough tier")
 	workers := fs.Int("j", 16, "parallel solver processes")
 	verbose := fs.Bool("v", false, "verbose")
 	fs.Parse(args)
 	start := time.Now()
+	out := *verif
+	if *outFlag != "" {
+		out = *outFlag
+	}
 	tier := "quick"
 	if *thorough || os.Getenv("VERIF_TIER") == "thorough" {
 		tier = "thorough"
@@ -140,7 +145,7 @@ func CmdCheck(args []string) int {
 	if *thorough {
 		timeout = 30000
 	}
-	workDir := filepath.Join(*verif, "work", *prop)
+	workDir := filepath.Join(out, "work", *prop)
 	os.RemoveAll(workDir)
 	os.MkdirAll(workDir, 0o755)
 
@@ -260,7 +265,7 @@ func CmdCheck(args []string) int {
 	exit := 0
 	var violLines, knownLines []string
 	usedKnown := map[int]bool{}
-	replayDir := filepath.Join(*verif, "replay", *prop)
+	replayDir := filepath.Join(out, "replay", *prop)
 	os.MkdirAll(replayDir, 0o755)
 	frOf := map[string]*FuncResult{}
 	for _, j := range jobs {
@@ -448,9 +453,9 @@ func CmdCheck(args []string) int {
 		"property_id": *prop, "tier": tier, "seed": seed, "level": level, "coverage": cov,
 		"assumptions": tb, "wall_s": time.Since(start).Seconds(), "violations": len(violLines),
 	}
-	os.MkdirAll(filepath.Join(*verif, "evidence"), 0o755)
+	os.MkdirAll(filepath.Join(out, "evidence"), 0o755)
 	eb, _ := json.MarshalIndent(ev, "", " ")
-	os.WriteFile(filepath.Join(*verif, "evidence", *prop+".json"), eb, 0o644)
+	os.WriteFile(filepath.Join(out, "evidence", *prop+".json"), eb, 0o644)
 
 	// ---- report ------------------------------------------------------------------------
 	fmt.Printf("%s [%s]: %d functions, %d obligations, %d discharged, %d failed, %d covers (%d vacuous); load %.1fs gen %.1fs solve %.1fs\n",
